@@ -1418,6 +1418,162 @@ func akRunQueue(retries, timeoutMs, cutAt, delay int, patience time.Duration) (r
 	return row
 }
 
+// ---------------------------------------------------------------- mode queuewin (retry queue: a second Emit at a chosen point)
+
+// akHookDebugger is a sio.Debugger (public ManagerConfig.Debugger): when the word is logged for the
+// occ-th time after arming, it runs the hook once, synchronously, in the goroutine that logged.
+type akHookDebugger struct {
+	mu    sync.Mutex
+	armed bool
+	word  string
+	occ   int
+	seen  int
+	fired bool
+	hook  func()
+}
+
+func (d *akHookDebugger) Log(main string, v ...any) {
+	d.mu.Lock()
+	if !d.armed || d.fired {
+		d.mu.Unlock()
+		return
+	}
+	hit := main == d.word
+	for _, x := range v {
+		if str, ok := x.(string); ok && str == d.word {
+			hit = true
+		}
+	}
+	if !hit {
+		d.mu.Unlock()
+		return
+	}
+	d.seen++
+	if d.seen != d.occ {
+		d.mu.Unlock()
+		return
+	}
+	d.fired = true
+	hook := d.hook
+	d.mu.Unlock()
+	hook()
+}
+
+func (d *akHookDebugger) WithContext(string) sio.Debugger                       { return d }
+func (d *akHookDebugger) WithDynamicContext(string, func() string) sio.Debugger { return d }
+
+type akWinSpec struct {
+	Kind int    `json:"kind"` // 0: server answers at once; 1: ignores the first attempt of packet 1; 2: never answers packet 1
+	Word string `json:"word"` // log line at which the second Emit runs ("" = after everything)
+	Occ  int    `json:"occ"`
+	Pos  int    `json:"pos"` // the same point as an index into the model's canonical schedule
+}
+
+type akWinRow struct {
+	Mode  string     `json:"mode"`
+	Spec  akWinSpec  `json:"spec"`
+	Fired bool       `json:"fired"` // the window was reached and the second Emit ran there
+	Invs0 []akAckInv `json:"invs0"`
+	Invs1 []akAckInv `json:"invs1"`
+	Seen0 int        `json:"seen0"`
+	Seen1 int        `json:"seen1"`
+	Ms    int64      `json:"ms"`
+	Err   string     `json:"err,omitempty"`
+}
+
+func akRunWin(spec akWinSpec, patience time.Duration) akWinRow {
+	start := time.Now()
+	const T = 250
+	row := akWinRow{Mode: "queuewin", Spec: spec, Invs0: []akAckInv{}, Invs1: []akAckInv{}}
+	srv := sio.NewServer(&sio.ServerConfig{})
+	if err := srv.Run(); err != nil {
+		row.Err = err.Error()
+		return row
+	}
+	ts := httptest.NewServer(srv)
+	defer func() {
+		srv.Close()
+		ts.Close()
+	}()
+	var seen0, seen1 atomic.Int32
+	up := make(chan struct{}, 4)
+	srv.OnConnection(func(s sio.ServerSocket) {
+		s.OnEvent("q", func(n int, ack func(int)) {
+			if n == 1 {
+				k := seen0.Add(1)
+				if spec.Kind == 2 || (spec.Kind == 1 && k == 1) {
+					return
+				}
+			} else {
+				seen1.Add(1)
+				// the second packet is answered a little later, so that whatever is still in flight for
+				// the first one (a re-sent copy, say) is answered first
+				go func() {
+					time.Sleep(120 * time.Millisecond)
+					ack(n * 100)
+				}()
+				return
+			}
+			ack(n * 100)
+		})
+		up <- struct{}{}
+	})
+	dbg := &akHookDebugger{word: spec.Word, occ: spec.Occ}
+	manager := sio.NewManager(ts.URL, &sio.ManagerConfig{EIO: akWsOnly(), NoReconnection: true, Debugger: dbg})
+	socket := manager.Socket("/", &sio.ClientSocketConfig{Retries: 1, AckTimeout: T * time.Millisecond})
+	defer manager.Close()
+	socket.Connect()
+	select {
+	case <-up:
+	case <-time.After(patience + 3*time.Second):
+		row.Err = "no connection"
+		return row
+	}
+	for i := 0; i < 400 && !socket.Connected(); i++ {
+		time.Sleep(time.Millisecond)
+	}
+	time.Sleep(10 * time.Millisecond) // onConnect's own drainQueue(true) is over
+	rec0 := akNewAckRec(true, false)
+	rec1 := akNewAckRec(true, false)
+	emit1 := func() {
+		rec1.t0 = time.Now()
+		socket.Emit("q", 2, rec1.callback())
+	}
+	dbg.mu.Lock()
+	dbg.hook = emit1
+	dbg.armed = spec.Word != ""
+	dbg.mu.Unlock()
+	rec0.t0 = time.Now()
+	socket.Emit("q", 1, rec0.callback())
+	rec0.waitCount(1, patience+3*T*time.Millisecond)
+	dbg.mu.Lock()
+	row.Fired = dbg.fired
+	dbg.fired = true // from now on the window is closed
+	dbg.mu.Unlock()
+	if !row.Fired {
+		emit1()
+	}
+	rec1.waitCount(1, patience+3*T*time.Millisecond)
+	// a second (wrong) invocation comes with the reply to a re-sent packet, or with its timeout
+	time.Sleep((T + 150) * time.Millisecond)
+	row.Invs0 = rec0.snapshot()
+	row.Invs1 = rec1.snapshot()
+	row.Seen0 = int(seen0.Load())
+	row.Seen1 = int(seen1.Load())
+	row.Ms = time.Since(start).Milliseconds()
+	return row
+}
+
+func akWinSpecs() []akWinSpec {
+	return []akWinSpec{
+		{0, "Draining queue", 1, 1}, {0, "Calling ack with ID", 1, 2}, {0, "successfully sent", 1, 4}, {0, "Draining queue", 2, 7}, {0, "", 0, 99},
+		{1, "Timeout occured for ack with ID", 1, 2}, {1, "Draining queue", 2, 5}, {1, "Calling ack with ID", 1, 6},
+		{1, "successfully sent", 1, 8}, {1, "Draining queue", 3, 11}, {1, "", 0, 99},
+		{2, "Timeout occured for ack with ID", 1, 2}, {2, "Timeout occured for ack with ID", 2, 6}, {2, "discarded after", 1, 8},
+		{2, "Draining queue", 3, 11}, {2, "", 0, 99},
+	}
+}
+
 // ---------------------------------------------------------------- driver
 
 func akParallel(n, workers int, f func(i int)) {
@@ -1648,6 +1804,20 @@ func acksMain(args []string) error {
 		// retry queue without a reconnect, and with a reconnect while the first attempt is pending
 		out.Put(akRunQueue(1, 200, -1, 20, patience))
 		out.Put(akRunQueue(1, 200, 60, 150, patience))
+	case "queuewin":
+		var specs []akWinSpec
+		if *only != "" {
+			if err := json.Unmarshal([]byte(*only), &specs); err != nil {
+				return err
+			}
+		} else {
+			specs = akWinSpecs()
+		}
+		rows := make([]akWinRow, len(specs))
+		akParallel(len(specs), *workers, func(i int) { rows[i] = akRunWin(specs[i], patience) })
+		for _, row := range rows {
+			out.Put(row)
+		}
 	case "rawpeer":
 		var specs []akPeerSpec
 		if *only != "" {
